@@ -1,5 +1,6 @@
 import Invoke.Lemmas.Decode
 import Invoke.Lemmas.RunnerIO
+import Invoke.Lemmas.RunnerMirror
 /-! # C02 — captured and mirrored command output equals what the command wrote
 
 (a) decoding: for ANY decoder machine and ANY way the OS splits the byte stream into reads, the
@@ -72,8 +73,27 @@ theorem captured_text_is_decoding_of_written (D : Decoder) (hi ht w p e : Bool) 
   · rw [chunked_decode_eq_whole, h.1 hd]
   · rw [chunked_decode_eq_whole, h.2 hd]
 
+/-- mirroring: along EVERY schedule, from every initial configuration and for every hide setting,
+    what has been forwarded to our own stdout / stderr streams is exactly what has been captured,
+    in the same order - and nothing at all for a hidden stream -/
+theorem mirror_eq_capture_or_empty (hi ht w p e : Bool) (o er : List Chunk) (ins : List InItem) (ho sf : Bool)
+    (n : Nat) (hideOut hideErr : Bool) (evs : List Ev) :
+    let s := run { S.init hi ht w p e o er ins ho sf n with hideOut := hideOut, hideErr := hideErr } evs
+    s.mirOut = (if hideOut then [] else s.capOut) ∧ s.mirErr = (if hideErr then [] else s.capErr) := by
+  have h0 : MirInv { S.init hi ht w p e o er ins ho sf n with hideOut := hideOut, hideErr := hideErr } := by
+    cases hideOut <;> cases hideErr <;> simp [MirInv, S.init]
+  have h := mirInv_run _ evs h0
+  have hh := hide_const_run { S.init hi ht w p e o er ins ho sf n with hideOut := hideOut, hideErr := hideErr } evs
+  simp only [MirInv, hh.1, hh.2] at h
+  exact h
+
 /-- non-vacuity: a schedule in which the process exits right after writing and the reader only
     reads afterwards still captures both chunks, split across a multi-byte character -/
+example :
+    let s := run { S.init false false false false false [[1], [2]] [[3]] [] false false 1000 with hideErr := true }
+      [.env .writeOut, .env .writeErr, .act .out, .env .writeOut, .act .err, .act .out]
+    s.mirOut = [[1], [2]] ∧ s.capErr = [[3]] ∧ s.mirErr = [] := by decide
+
 example :
     let s := run (S.init false false false false false [[0x63, 0xC3], [0xA9]] [] [] false false 1000)
       [.env .writeOut, .env .writeOut, .env (.exit 0), .act .main, .act .out, .act .out, .act .out]
